@@ -9,13 +9,21 @@ CFG = {
             "(Finish at once / retain everything / Finish 1..5 items late) with deep copies compared to the retained originals, "
             "Escape-timer scripts with 40 ms pauses after a lone ESC and back-to-back reads otherwise (incl. a C0 control executed in the escape state before the pause); "
             "the same timing shapes with a slow consumer (25 ms before every receive: emit blocks, a timer callback blocks in emit holding the mutex); "
-            "hook-held timer callbacks released before / inside / after the following bytes; distinct by (consumer, script)",
+            "hook-held timer callbacks released before / inside / after the following bytes; distinct by (consumer, script). "
+            "Stream C08Sched (round 4): schedules enumerated by the Lean model from the statement-grained LTS - every interleaving of the statements of run(), the reader's returns, Close() and timer expiries "
+            "with the statements of the timer callbacks for 15 scripted inputs (all of them where there are at most 300 quick / 6000 thorough per input, a seed-dependent stride otherwise, plus random ones) - "
+            "replayed on the real parser label by label: every goroutine parked at a yield point (verifSched), exactly one released per label; no elapsed time in any verdict; distinct by schedule",
     "trusted_base": ["the statement order of run/readRune/the timer callback in Model/ParserRunFine.lean is pinned to the regenerated skeletons (Gen/ParserRun.lean, Gen/ParserReader.lean: "
-                     "model_order_is_source_order); what each statement *does* (mainStep/cbStep) is by reading; "
+                     "model_order_is_source_order; the yield points of the forced-schedule harness: yield_points_in_front_of_statements); what each statement *does* (mainStep/cbStep) is by reading, and since round 4 "
+                     "compared with the real code after EVERY statement of every enumerated interleaving (program point, escGen, state, ignoreST, items: stream C08Sched); "
                      "sync.Mutex gives sequential consistency for the fields it guards; FIFO order of emit; time.AfterFunc/Stop and sync.Pool semantics as stated in notes/C08.md",
                      "pool models (explicit arrays in Model/ParserPools.lean, refining to Own): the intermediate pool is driven by the automaton's statements in table order (Model/ParserPoolsDrive.lean); "
-                     "what collect/clear/dispatch/Finish do to a slice, and the parameter pools (local to one csiDispatch), follow the Go methods by reading, validated by the retention harness"],
-    "assumptions": ["the consumer keeps receiving (emit blocks otherwise, by design: consumer_stops_blocks; with a receiving consumer every finite input terminates: finite_input_terminates)", "each delivered sequence is passed to Finish at most once",
+                     "the parameter pools are driven by the automaton too (Model/ParserParamsDrive.lean), the expansion of csiDispatch into Get/append/push/emit is proved equal to a walk of the regenerated body "
+                     "(expansion_is_regenerated_body); what collect/clear/Finish do to a slice follows the Go methods by reading, validated by the retention harness; "
+                     "that every hand-over is followed by a pool Get and parameter slices are taken with Get()[:0] is re-decided against the regenerated bodies (handover_takes_fresh_storage)",
+                     "forced schedules: the reductions of the enumeration (Close() issued in front of a select; a timer expires right after arming or never) commute in the LTS by inspection, not by theorem; "
+                     "the scheduler cannot park between ReadRune's return and the Stop() in readRune nor between a failed check and the deferred Unlock (no yield point)"],
+    "assumptions": ["the consumer keeps receiving (emit blocks otherwise, by design: consumer_stops_blocks; with a receiving consumer every finite input terminates: finite_input_terminates on the atomic layer, fchan_fair_run_terminates at statement grain)", "each delivered sequence is passed to Finish at most once",
                     "40 ms >> 10 ms >> back-to-back reads on the test machine (prompt cases with surplus Escape reports are re-run)"],
     "level_text": "Proved for every schedule of reads, end of input, Close(), timer firings and late timer callbacks: exactly one EOF, last, then the channel is closed, "
                   "nothing emitted afterwards; no panic; end of input / Close+read return stop the loop; no deadlock; number of Escape reports = number of (up-to-date) "
@@ -40,9 +48,19 @@ CFG = {
                   "The callback as it was before F29 reaches the three failures at statement grain (fine_pre_F29_callback_fails). "
                   "Composition with C02 (Props/C08Spec): for every schedule the delivered items are exactly what the reference machine of Spec/VT500.lean prescribes for the same labels - runes through the VT500 machine "
                   "(F102 on; F102c is repaired), the Escape key = Spec escKey at every up-to-date timer firing and nowhere else, the open control string at end of input, one EOF; for segment scripts this is Spec.runWithEscKeysD, the driver's oracle. "
+                  "Round 4 - forced schedules: every schedule the model hands to the harness is a complete run of the statement-grained LTS (enumerate_sound), the list is exactly the set of complete interleavings under two commuting reductions "
+                  "(enumerate_complete), every replayed label is one or two statements of FSys.step (srun_is_fine_run), so the theorems above speak about each replay; without escGen++ before emit(EOF) the callback of a lone ESC sends on the closed channel, "
+                  "with the bump moved into escape() a SUB does not outdate it (statement-grained witnesses = the replays found on the changed code). "
+                  "Fair-run termination at statement grain (Props/C08FineFair): for every finite input, every expiry policy and any capacity >= 1 the fair scheduler over the bounded-channel statement system ends within an explicit bound with run() returned, "
+                  "the channel closed and drained, every callback returned, received = pre ++ [EOF], nothing lost; for the parser's table every scripted input is read and the received stream is the Spec's; after Close() and the return of the pending read "
+                  "(any reachable state) the run ends within an explicit bound without another read, and in no schedule is the read entered again. "
+                  "Parameter pools driven by the automaton (Props/C08DriveParams): for any table, runes, Get answers (stale lengths), growth and Finish-Puts interleaved anywhere (also inside a dispatch) the composite is a run of the pool model, "
+                  "every delivered unfinished CSI reads its parameters as delivered at every point, each hand-over reads decodeParams of the collected bytes, and the expansion equals a walk of the regenerated csiDispatch body. "
                   "Real time is abstracted to the order of timer and read events.",
-    "level_note": "LTS tied to the code by the regenerated table/timer shape, the regenerated run/callback skeletons (Props/C08Order) and by scripted-reader correspondence (incl. hook-forced callback delays in a child process). "
-                  "Modelled, not verified: fair-run termination on the statement-grained channel layer (only no-deadlock there; termination is proved on the atomic layer, C08Live); real time. "
+    "level_note": "LTS tied to the code by the regenerated table/timer shape, the regenerated run/callback skeletons (Props/C08Order) and by scripted-reader correspondence (incl. hook-forced callback delays in a child process); "
+                  "since round 4 also by the forced-schedule replay: the model's statement-grained state is compared with the real parser after every statement of every enumerated interleaving, and the oracle there is evaluated on the "
+                  "implementation's observations alone (no panic, EOF once and last, guarded fields written only under the mutex, Escape report only while the ESC is the last byte parsed, lone ESC reported, Close stops the loop, items = Spec). "
+                  "Validated by correspondence only: what each statement of run/the callback does (by reading + replay); the two enumeration reductions; collect/clear/Finish on slices. Modelled, not verified: real time (the 10 ms are the order of events). "
                   "Fixed in /repo: F108 (ignoreST after Escape key inside a string), F29 (unguarded timer callback: late Escape, torn sequence, send on closed channel).",
     "timeout": 1800,
 }
